@@ -94,6 +94,7 @@ FlagsOf(words) == {FlagTable[w] : w \in {x \in Rng(words) : x \in DOMAIN FlagTab
 DimsOfShape == [Circle |-> {"od", "id", "mult"}, Hexagon |-> {"op", "ip", "mult"},
                 Rectangle |-> {"lengthOuter", "lengthInner", "widthOuter", "widthInner", "mult"},
                 Square |-> {"widthOuter", "widthInner", "mult"}, DerivedShape |-> {},
+                Helix |-> {"od", "id", "axialPitch", "helixDiameter", "mult"},
                 RadialSegment |-> {"inner_radius", "outer_radius", "inner_theta", "outer_theta", "height", "mult"}]
 Comp(name, shape, mat, ti, th, dims) == [name |-> name, shape |-> shape, mat |-> mat, ti |-> ti, th |-> th,
                                          iso |-> "", lat |-> <<>>, dims |-> dims]
@@ -125,7 +126,7 @@ Acyclic(B) == \A k \in 1..Len(B.comps) : \A d \in DOMAIN B.comps[k].dims :
 
 \* sign of the cold cross-section area without pi or sqrt(3): an annulus / frame is negative iff inner > outer
 NegativeArea(B, c) ==
-    IF c.shape = "Circle" THEN Res(B, c.name, "id") > Res(B, c.name, "od")
+    IF c.shape \in {"Circle", "Helix"} THEN Res(B, c.name, "id") > Res(B, c.name, "od")
     ELSE IF c.shape = "Hexagon" THEN Res(B, c.name, "ip") > Res(B, c.name, "op")
     ELSE IF c.shape = "Square" THEN Res(B, c.name, "widthInner") > Res(B, c.name, "widthOuter")
     ELSE IF c.shape = "Rectangle" THEN Res(B, c.name, "lengthInner") * Res(B, c.name, "widthInner")
@@ -134,23 +135,52 @@ NegativeArea(B, c) ==
     ELSE FALSE
 \* Does the block hold its pins?  Exact areas need pi and sqrt(3); integer bounds decide the clear cases and the
 \* explored documents are clear cases (Modelled).  Units 1e-4 cm^2.  11/14 > pi/4 > 3/4 and 7/8 > sqrt(3)/2 > 6/7.
-Outer(B) == B.comps[Len(B.comps)]                 \* the bounding component is written last
-Inner(B) == {k \in 1..(Len(B.comps) - 1) : B.comps[k].shape \in {"Circle", "Square"} /\ ~NegativeArea(B, B.comps[k])}
+\* the bounding component: the hexagon of largest outer flat-to-flat if there is one (ducts may be written in any order),
+\* otherwise the component written last
+Hexes(B) == {k \in 1..Len(B.comps) : B.comps[k].shape = "Hexagon"}
+Outer(B) == IF Hexes(B) = {} THEN B.comps[Len(B.comps)]
+            ELSE B.comps[CHOOSE k \in Hexes(B) : \A j \in Hexes(B) :
+                               Res(B, B.comps[j].name, "op") < Res(B, B.comps[k].name, "op") \/ (Res(B, B.comps[j].name, "op") = Res(B, B.comps[k].name, "op") /\ j >= k)]
+Inner(B) == {k \in 1..Len(B.comps) : B.comps[k].shape \in {"Circle", "Square", "Helix"} /\ ~NegativeArea(B, B.comps[k])}
 Sq(B, c, o, i) == AMax2(Res(B, c.name, "mult"), 0) * (Res(B, c.name, o) * Res(B, c.name, o) - Res(B, c.name, i) * Res(B, c.name, i))
-QCirc(B) == FoldSet(LAMBDA k, acc : acc + (IF B.comps[k].shape = "Circle" THEN Sq(B, B.comps[k], "od", "id") ELSE 0), 0, Inner(B))
+\* round cross-sections; a wire wrap (Helix) is a round wire stretched along its helix by a factor between 1 and 2
+QCircW(B, w) == FoldSet(LAMBDA k, acc : acc + (IF B.comps[k].shape = "Circle" THEN Sq(B, B.comps[k], "od", "id")
+                                              ELSE IF B.comps[k].shape = "Helix" THEN w * Sq(B, B.comps[k], "od", "id") ELSE 0), 0, Inner(B))
+QCirc(B) == QCircW(B, 1)
+QCircHigh(B) == QCircW(B, 2)
 QSqr(B)  == FoldSet(LAMBDA k, acc : acc + (IF B.comps[k].shape = "Square" THEN Sq(B, B.comps[k], "widthOuter", "widthInner") ELSE 0), 0, Inner(B))
-\* the room inside the bounding component: hexagon of inner flat-to-flat ip (area sqrt(3)/2 ip^2) or inner rectangle
-HexRoom(B)  == Res(B, Outer(B).name, "ip") * Res(B, Outer(B).name, "ip")
+\* the room inside the bounding component: hexagon of inner flat-to-flat ip (area sqrt(3)/2 ip^2) less the walls of the other
+\* (inner) hexagonal ducts, or inner rectangle
+InnerWalls(B) == FoldSet(LAMBDA k, acc : acc + (IF B.comps[k] = Outer(B) THEN 0 ELSE
+                             Res(B, B.comps[k].name, "op") * Res(B, B.comps[k].name, "op") - Res(B, B.comps[k].name, "ip") * Res(B, B.comps[k].name, "ip")), 0, Hexes(B))
+HexRoom(B)  == Res(B, Outer(B).name, "ip") * Res(B, Outer(B).name, "ip") - InnerWalls(B)
 RectRoom(B) == IF Outer(B).shape = "Rectangle" THEN Res(B, Outer(B).name, "lengthInner") * Res(B, Outer(B).name, "widthInner")
                ELSE Res(B, Outer(B).name, "widthInner") * Res(B, Outer(B).name, "widthInner")
 CertainlyFits(B) ==
     IF Outer(B).shape = "RadialSegment" THEN Inner(B) = {}
-    ELSE IF Outer(B).shape = "Hexagon" THEN 11 * QCirc(B) + 14 * QSqr(B) <= 12 * HexRoom(B)
-    ELSE 11 * QCirc(B) + 14 * QSqr(B) <= 14 * RectRoom(B)
+    ELSE IF Outer(B).shape = "Hexagon" THEN 11 * QCircHigh(B) + 14 * QSqr(B) <= 12 * HexRoom(B)
+    ELSE 11 * QCircHigh(B) + 14 * QSqr(B) <= 14 * RectRoom(B)
 CertainlyExceeds(B) ==
     IF Outer(B).shape = "RadialSegment" THEN FALSE
     ELSE IF Outer(B).shape = "Hexagon" THEN 6 * QCirc(B) + 8 * QSqr(B) > 7 * HexRoom(B)
     ELSE 3 * QCirc(B) + 4 * QSqr(B) > 4 * RectRoom(B)
+
+\* A wire-wrapped hexagonal pin bundle must fit inside the INNERMOST duct (HexBlock.verifyBlockDims / getPinToDuctGap, cold):
+\*    sqrt(3)/2 * 2 (rings - 1) (clad od + wire od) + clad od + 2 wire od  <=  duct ip + 0.01 cm     (gap >= -0.005 cm)
+\* applies when the block has one wire, one clad and a hexagonal innermost duct; the innermost duct is the smallest one,
+\* in whatever order the ducts are written.  1.7320 < sqrt(3) < 1.7321; lengths in 0.01 cm, inequality scaled by 10000.
+DuctNames == {"duct", "inner duct", "outer duct"}
+Ducts(B) == {k \in 1..Len(B.comps) : B.comps[k].name \in DuctNames}
+InnermostDuct(B) == B.comps[CHOOSE k \in Ducts(B) : \A j \in Ducts(B) :
+                               Res(B, B.comps[j].name, "op") > Res(B, B.comps[k].name, "op") \/ (Res(B, B.comps[j].name, "op") = Res(B, B.comps[k].name, "op") /\ j >= k)]
+PinRuleApplies(B) == /\ Cardinality(CompIdx(B, "wire")) = 1 /\ Cardinality(CompIdx(B, "clad")) = 1 /\ Ducts(B) # {}
+                     /\ CompNamed(B, "wire").shape = "Helix" /\ InnermostDuct(B).shape = "Hexagon"
+Rings(m) == IF m <= 1 THEN 1 ELSE IF m <= 7 THEN 2 ELSE IF m <= 19 THEN 3 ELSE IF m <= 37 THEN 4 ELSE 5      \* hexagon.numRingsToHoldNumCells
+BundleScaled(B, s3) == s3 * (Rings(Res(B, "clad", "mult")) - 1) * (Res(B, "clad", "od") + Res(B, "wire", "od"))
+                       + 10000 * (Res(B, "clad", "od") + 2 * Res(B, "wire", "od"))
+DuctIpScaled(B) == 10000 * Res(B, InnermostDuct(B).name, "ip")
+CertainlyInsideDuct(B)  == DuctIpScaled(B) - BundleScaled(B, 17321) >= -10000
+CertainlyOutsideDuct(B) == DuctIpScaled(B) - BundleScaled(B, 17320) < -10000
 
 (* ============================================ grids ============================================ *)
 GridIdx(d, gn) == {k \in 1..Len(d.grids) : d.grids[k].name = gn}
@@ -210,6 +240,7 @@ UnknownSpecifier(d) ==
 Overlap(d) == \E b \in BlocksUsed(d) : LET B == d.blocks[b] IN
     \/ \E c \in 1..Len(B.comps) : Solid(B.comps[c].mat) /\ NegativeArea(B, B.comps[c])
     \/ CertainlyExceeds(B)
+    \/ PinRuleApplies(B) /\ CertainlyOutsideDuct(B)
 MultOf(d, B, c) ==
     LET n == Cardinality(PinCells(d, B, c))
         m == Res(B, c.name, "mult")
@@ -265,13 +296,16 @@ Why(d) ==
          THEN (IF \A b \in BlocksUsed(d) : \A c \in 1..Len(d.blocks[b].comps) :
                      (Solid(d.blocks[b].comps[c].mat) /\ NegativeArea(d.blocks[b], d.blocks[b].comps[c])) => BeyondClad(d.blocks[b], d.blocks[b].comps[c])
                THEN "negative-fluid-beyond-clad" ELSE "negative-area")
-         ELSE "exceeds-block")
+         ELSE IF \E b \in BlocksUsed(d) : CertainlyExceeds(d.blocks[b]) THEN "exceeds-block"
+         ELSE "pins-in-duct")
     ELSE ""
 \* documents about which the specification says nothing (kept out of the explored set by the state constraint)
 Modelled(d) ==
     /\ \A b \in 1..Len(d.blocks) : LinksOK(d.blocks[b]) => Acyclic(d.blocks[b])
     /\ \A b \in 1..Len(d.blocks) : (LinksOK(d.blocks[b]) /\ ~\E c \in 1..Len(d.blocks[b].comps) : NegativeArea(d.blocks[b], d.blocks[b].comps[c]))
                                        => (CertainlyFits(d.blocks[b]) \/ CertainlyExceeds(d.blocks[b]))
+    /\ \A b \in 1..Len(d.blocks) : (LinksOK(d.blocks[b]) /\ PinRuleApplies(d.blocks[b]))
+                                       => (CertainlyInsideDuct(d.blocks[b]) \/ CertainlyOutsideDuct(d.blocks[b]))
     /\ \A k \in 1..Len(d.iso) : IsoOK(d.iso[k])
     /\ (HasGrid(d, d.core) /\ CoreGrid(d).dom = "third") => \A x \in DOMAIN CoreCells(d) : InThird(x) \/ ~InThirdOverlap(x)
     /\ HasGrid(d, d.core) => DOMAIN CoreCells(d) # {}
@@ -313,11 +347,12 @@ ExpComposition(d, a, k, c) ==
 ExpComp(d, a, k, B, c) ==
     LET geo == DOMAIN c.dims \ {"mult"}
         lk  == {x \in DOMAIN c.dims : c.dims[x].k = "link"}
-    IN (IF "mult" \in DOMAIN c.dims THEN [mult |-> MultOf(d, B, c)] ELSE [x \in {} |-> 0]) @@
+    \* pin cells are claimed only where the block names a pin lattice (armi may infer a lattice of its own otherwise)
+    IN (IF B.grid # "" THEN [cells |-> CellSeq(PinCells(d, B, c))] ELSE [x \in {} |-> 0]) @@
+       (IF "mult" \in DOMAIN c.dims THEN [mult |-> MultOf(d, B, c)] ELSE [x \in {} |-> 0]) @@
        [name |-> c.name, shape |-> c.shape, mat |-> c.mat, ti |-> c.ti, th |-> c.th,
         dims |-> [x \in geo |-> Res(B, c.name, x)],
         links |-> [x \in lk |-> <<c.dims[x].c, c.dims[x].d>>],
-        cells |-> CellSeq(PinCells(d, B, c)),
         comp |-> ExpComposition(d, a, k, c)]
 ExpBlock(d, a, k) ==
     LET B == d.blocks[a.blocks[k]] IN
@@ -372,7 +407,7 @@ BaseComp == [nuc |-> NucFlags, iso |-> <<MixMF, MixND, MixNF, Steel, Hot, Mixed>
 \* "stack": assembly layouts -- three block designs, an assembly design of three blocks and one of two
 BaseStack == [nuc |-> <<>>, iso |-> <<>>,
               blocks |-> << Blk(<<"fuel">>, <<Fuel, Clad, Cool, Duct>>), Blk(<<"shield">>, <<Slug, Cool, Duct>>), Blk(<<"plenum">>, <<Clad, Cool, Duct>>) >>,
-              asms |-> << Asm(<<"fuel", "a">>, "A", <<2, 1, 3>>, <<10, 20, 30>>, <<1, 2, 3>>, <<"A", "B", "C">>),
+              asms |-> << Asm(<<"fuel", "a">>, "A", <<2, 1, 3>>, <<10, 20, 30>>, <<1, 2, 3>>, <<"A", "b", "C">>),      \* xs labels are case sensitive
                           Asm(<<"shield", "b">>, "B", <<2, 3>>, <<30, 30>>, <<3, 1>>, <<"D", "E">>) >>,
               grids |-> << CellsGrid("core", "hex", "full", << <<0, 0, "A">>, <<1, 0, "B">> >>) >>, core |-> "core"]
 \* "pins": a pin lattice on the block -- fuel and clad on id "1", a guide tube on id "2"
@@ -481,16 +516,27 @@ SetIsotopics(b, cn, iso, mat) ==
        /\ doc.blocks[b].comps[k].iso = "" /\ doc.blocks[b].comps[k].mat \in {"UZr", "HT9"}
        /\ doc' = [doc EXCEPT !.blocks[b].comps[k].iso = iso, !.blocks[b].comps[k].mat = mat]
     /\ act' = [n |-> "SetIsotopics", b |-> b, c |-> cn, iso |-> iso, mat |-> mat]
-ModLists == { << <<1, 5>>, <<>>, <<1, 4>> >>, << <<3, 20>>, <<1, 20>>, <<>> >> }
+\* a requested fraction of exactly 0 is a request (applied), a blank entry is not
+ModLists == { << <<1, 5>>, <<>>, <<1, 4>> >>, << <<3, 20>>, <<1, 20>>, <<>> >>, << <<0, 1>>, <<0, 1>>, <<>> >> }
 SetMod(scope, key, vals) ==
     /\ fam = "comp" /\ scope \in {"", "fuel"} /\ key \in {"U235_wt_frac", "ZR_wt_frac"} /\ vals \in ModLists
     /\ ~\E m \in 1..Len(doc.asms[1].mods) : doc.asms[1].mods[m].scope = scope /\ doc.asms[1].mods[m].key = key
     /\ doc' = [doc EXCEPT !.asms[1].mods = Append(@, [scope |-> scope, key |-> key, vals |-> vals])]
     /\ act' = [n |-> "SetMod", scope |-> scope, key |-> key, vals |-> vals]
-ShortMod ==                                                  \* a modification list with an entry missing
-    /\ fam = "comp" /\ Len(doc.asms[1].mods) > 0 /\ Len(doc.asms[1].mods[1].vals) = Len(doc.asms[1].blocks)
-    /\ doc' = [doc EXCEPT !.asms[1].mods[1].vals = DropLast(@)]
-    /\ act' = [n |-> "ShortMod"]
+SetModPair(v1, v2) ==                                       \* two modifications of ONE component in one edit
+    /\ fam = "comp" /\ v1 \in ModLists /\ v2 \in ModLists /\ v1 # v2
+    /\ ~\E m \in 1..Len(doc.asms[1].mods) : doc.asms[1].mods[m].scope = "fuel"
+    /\ doc' = [doc EXCEPT !.asms[1].mods = @ \o << [scope |-> "fuel", key |-> "U235_wt_frac", vals |-> v1],
+                                                   [scope |-> "fuel", key |-> "ZR_wt_frac", vals |-> v2] >>]
+    /\ act' = [n |-> "SetModPair", v1 |-> v1, v2 |-> v2]
+ShortMod(m) ==                                               \* a modification list (any of them) with an entry missing
+    /\ fam = "comp" /\ m \in 1..Len(doc.asms[1].mods) /\ Len(doc.asms[1].mods[m].vals) = Len(doc.asms[1].blocks)
+    /\ doc' = [doc EXCEPT !.asms[1].mods[m].vals = DropLast(@)]
+    /\ act' = [n |-> "ShortMod", m |-> m]
+LongMod(m) ==                                                \* ... with an entry too many
+    /\ fam = "comp" /\ m \in 1..Len(doc.asms[1].mods) /\ Len(doc.asms[1].mods[m].vals) = Len(doc.asms[1].blocks)
+    /\ doc' = [doc EXCEPT !.asms[1].mods[m].vals = Append(@, <<1, 10>>)]
+    /\ act' = [n |-> "LongMod", m |-> m]
 DupIsotopics ==                                              \* two custom isotopics of one name
     /\ fam = "comp" /\ ~HasDup(NamesOf(doc.iso))
     /\ doc' = [doc EXCEPT !.iso = Append(@, [MixMF EXCEPT !.dens = <<5, 1>>])]
@@ -534,6 +580,11 @@ SetHeight(a, k, h) ==                                        \* heights off the 
     /\ fam = "stack" /\ a \in 1..Len(doc.asms) /\ k \in 1..Len(doc.asms[a].height) /\ h \in {20, 25, 50} /\ doc.asms[a].height[k] # h
     /\ doc' = [doc EXCEPT !.asms[a].height[k] = h]
     /\ act' = [n |-> "SetHeight", a |-> a, k |-> k, h |-> h]
+SetXs(a, k, x) ==                                            \* lower-case, mixed-case and two-letter xs types
+    /\ fam = "stack" /\ a = 1 /\ k \in 1..2 /\ x \in {"a", "B", "aB", "AB"} /\ doc.asms[a].xs[k] # x
+    /\ Len(doc.asms[a].xs) >= k
+    /\ doc' = [doc EXCEPT !.asms[a].xs[k] = x]
+    /\ act' = [n |-> "SetXs", a |-> a, k |-> k, x |-> x]
 PlaceStack(x, s) ==
     /\ fam = "stack" /\ x \in {<<0, 0>>, <<1, 0>>, <<0, 1>>} /\ s \in {"A", "B"}
     /\ LET gr == doc.grids[1]
@@ -579,6 +630,36 @@ PinGridName(gn) ==
     /\ doc' = [doc EXCEPT !.blocks[1].grid = gn]
     /\ act' = [n |-> "PinGridName", g |-> gn]
 
+\* ---- pin bundle and ducts ("duct") ----
+DuctEdit(cn, d, v) ==
+    /\ fam = "duct" /\ HasComp(doc.blocks[1], cn)
+    /\ \/ cn = "inner duct" /\ d = "ip" /\ v \in {480, 495, 505}          \* 4.80 and 4.95 cm are too narrow for the bundle (5.0105 cm)
+       \/ cn = "outer duct" /\ d = "ip" /\ v \in {535}
+       \/ cn = "wire" /\ d = "od" /\ v \in {5, 20}
+    /\ LET k == CHOOSE x \in CompIdx(doc.blocks[1], cn) : TRUE IN
+       /\ doc.blocks[1].comps[k].dims[d] # Num(v)
+       /\ doc' = [doc EXCEPT !.blocks[1].comps[k].dims[d] = Num(v)]
+    /\ act' = [n |-> "DuctEdit", c |-> cn, d |-> d, v |-> v]
+PinCount(m) ==
+    /\ fam = "duct" /\ m \in {7, 37} /\ doc.blocks[1].comps[1].dims["mult"] # Num(m)
+    /\ LET cs == doc.blocks[1].comps IN
+       doc' = [doc EXCEPT !.blocks[1].comps = [k \in 1..Len(cs) |-> IF cs[k].name \in {"fuel", "clad", "wire"}
+                                                                     THEN [cs[k] EXCEPT !.dims["mult"] = Num(m)] ELSE cs[k]]]
+    /\ act' = [n |-> "PinCount", m |-> m]
+SwapDucts ==                                                 \* the outer duct written before the inner one
+    /\ fam = "duct" /\ HasComp(doc.blocks[1], "inner duct") /\ HasComp(doc.blocks[1], "outer duct")
+    /\ LET i == CHOOSE x \in CompIdx(doc.blocks[1], "inner duct") : TRUE
+           o == CHOOSE x \in CompIdx(doc.blocks[1], "outer duct") : TRUE
+           cs == doc.blocks[1].comps IN
+       doc' = [doc EXCEPT !.blocks[1].comps = [cs EXCEPT ![i] = cs[o], ![o] = cs[i]]]
+    /\ act' = [n |-> "SwapDucts"]
+DropDuct(cn) ==
+    /\ fam = "duct" /\ cn \in {"inner duct", "outer duct"}
+    /\ HasComp(doc.blocks[1], "inner duct") /\ HasComp(doc.blocks[1], "outer duct")
+    /\ LET k == CHOOSE x \in CompIdx(doc.blocks[1], cn) : TRUE IN
+       doc' = [doc EXCEPT !.blocks[1].comps = DelAt(@, k)]
+    /\ act' = [n |-> "DropDuct", c |-> cn]
+
 \* ---- core lattice ("core") ----
 CoreUniverse(gr) == IF gr.geom = "thetarz" THEN {0} \X (0..2)
                     ELSE IF gr.geom = "cartesian" THEN (IF gr.dom = "full" THEN (-1..1) \X (-1..1) ELSE (0..2) \X (0..2))
@@ -598,7 +679,17 @@ Mappable(gr, f) ==
     IN /\ Drawable(MapClassOf(gr.geom, gr.dom), Sm)
        /\ GridContents(gr.geom, gr.dom, Redraw(gr, f)) = f
 MapVariant(d) == [d EXCEPT !.grids[1].mode = "map", !.grids[1].text = Redraw(d.grids[1], CellsOf(d.grids[1]))]
+\* "duct": a wire-wrapped 19-pin bundle inside an inner and an outer duct
+WFuel == Comp("fuel", "Circle", "UZr", 25, 25, [od |-> Num(80), id |-> Num(0), mult |-> Num(19)])
+WClad == Comp("clad", "Circle", "HT9", 25, 25, [od |-> Num(100), id |-> Num(90), mult |-> Num(19)])
+Wire  == Comp("wire", "Helix", "HT9", 25, 25, [od |-> Num(10), id |-> Num(0), axialPitch |-> Num(3000), helixDiameter |-> Num(110), mult |-> Num(19)])
+InnerDuct == Comp("inner duct", "Hexagon", "HT9", 25, 25, [op |-> Num(530), ip |-> Num(510), mult |-> Num(1)])
+OuterDuct == Comp("outer duct", "Hexagon", "HT9", 25, 25, [op |-> Num(580), ip |-> Num(560), mult |-> Num(1)])
+BaseDuct == [nuc |-> <<>>, iso |-> <<>>, blocks |-> << Blk(<<"fuel">>, <<WFuel, WClad, Wire, Cool, InnerDuct, OuterDuct>>) >>,
+             asms |-> << Asm(<<"fuel", "a">>, "A", <<1>>, <<10>>, <<1>>, <<"A">>) >>,
+             grids |-> <<OneCell>>, core |-> "core"]
 Bases(f) == IF f = "links" THEN {BaseLinks}
+            ELSE IF f = "duct" THEN {BaseDuct}
             ELSE IF f = "comp" THEN {BaseComp}
             ELSE IF f = "stack" THEN {BaseStack}
             ELSE IF f = "pins" THEN {BasePins}
@@ -657,7 +748,8 @@ Edit ==
     \/ \E cn \in PinNames : SetTemps(cn)
     \/ \E b \in 1..2, cn \in {"fuel", "clad"}, iso \in IsoNames, mat \in FuelMats \cup {"HT9"} : SetIsotopics(b, cn, iso, mat)
     \/ \E scope \in {"", "fuel"}, key \in {"U235_wt_frac", "ZR_wt_frac"}, vals \in ModLists : SetMod(scope, key, vals)
-    \/ ShortMod
+    \/ \E v1 \in ModLists, v2 \in ModLists : SetModPair(v1, v2)
+    \/ \E m \in 1..4 : ShortMod(m) \/ LongMod(m)
     \/ DupIsotopics
     \/ \E a \in 1..2, k \in 1..2 : SwapBlocks(a, k)
     \/ \E a \in 1..2, which \in {"height", "mesh", "xs"}, k \in 1..2 : SwapList(a, which, k)
@@ -667,12 +759,17 @@ Edit ==
     \/ \E a \in 1..2, name \in {<<"fuel", "a">>, <<"inner", "test", "fuel">>} : RenameAsm(a, name)
     \/ \E b \in 1..3, name \in {<<"fuel">>, <<"outer", "reflector">>} : RenameBlock(b, name)
     \/ \E a \in 1..2, k \in 1..3, h \in {20, 25, 50} : SetHeight(a, k, h)
+    \/ \E a \in 1..2, k \in 1..2, x \in {"a", "B", "aB", "AB"} : SetXs(a, k, x)
     \/ \E x \in {<<0, 0>>, <<1, 0>>, <<0, 1>>}, s \in {"A", "B"} : PlaceStack(x, s)
     \/ \E x \in PinUniverse, id \in {"1", "2", "9"} : PlacePin(x, id)
     \/ \E mode \in {"map", "cells"}, geom \in {"hex_corners_up", "hex"} : PinMode(mode, geom)
     \/ \E cn \in {"fuel", "guide"}, m \in {1, 2, 3} : PinMult(cn, m)
     \/ \E cn \in {"guide", "clad"}, ids \in {<<"1", "2">>, <<>>} : PinIds(cn, ids)
     \/ \E gn \in {"pin", "core"} : PinGridName(gn)
+    \/ \E cn \in {"inner duct", "outer duct", "wire"}, d \in {"ip", "od"}, v \in {5, 20, 480, 495, 505, 535} : DuctEdit(cn, d, v)
+    \/ \E m \in {7, 37} : PinCount(m)
+    \/ SwapDucts
+    \/ \E cn \in {"inner duct", "outer duct"} : DropDuct(cn)
     \/ \E x \in (-2..2) \X (-2..2), s \in {"A", "B", "Z"} : Place(x, s)
     \/ \E x \in (-2..2) \X (-2..2) : Unplace(x)
     \/ AsMap
@@ -696,6 +793,7 @@ OkIsUnambiguous == Ok =>
 \* ... its solid components have non-negative area and fit into the block; multiplicities are positive counts
 OkIsPhysical == Ok => \A b \in BlocksUsed(doc) : LET B == doc.blocks[b] IN
     /\ CertainlyFits(B)
+    /\ PinRuleApplies(B) => CertainlyInsideDuct(B)
     /\ \A c \in 1..Len(B.comps) : (Solid(B.comps[c].mat) => ~NegativeArea(B, B.comps[c]))
     /\ \A c \in 1..Len(B.comps) : ("mult" \in DOMAIN B.comps[c].dims => MultOf(doc, B, B.comps[c]) >= 1)
 \* ... every assembly design is a stack: one height, mesh count and xs type per block, elevations add up
